@@ -667,7 +667,7 @@ fn generate_semantic_action_call(action_fn: &TokenStream) -> TokenStream {
     let map_res = quote!(match res {
         Ok(tok) => Ok((match_start, tok, match_end)),
         Err(err) => Err(::lexgen_util::LexerError {
-            location: self.match_loc().0,
+            location: match_start,
             kind: ::lexgen_util::LexerErrorKind::Custom(err),
         }),
     });
